@@ -14,6 +14,12 @@
 //! `judge` compares one observed outcome with the table.  ezk keeps connections in a HashMap, so the
 //! verdict is about MEMBERSHIP in the admissible set, plus the one ordering the statement gives:
 //! a live outgoing connection is reused in preference to opening a new one.
+//!
+//! `judge_later` applies the per-transmission clauses of the statement (never in clear, destination/port
+//! rule, datagram family, pinned transport + destination reused) to everything the transaction emits
+//! AFTER the first transmission: retransmissions of the request and the ACK for a non-2xx final response
+//! (both are requests to the same URI).  It does not demand that they use the transport of the first
+//! transmission unless the caller pinned one: the statement does not say so.
 
 use std::net::{IpAddr, SocketAddr};
 
@@ -407,4 +413,106 @@ fn dest_finding(out: &mut Vec<Finding>, t: &Target, got: SocketAddr, want: Socke
             format!("sent to {got} ({path}), the statement gives {want}"),
         );
     }
+}
+
+// ------------------------------------------------------------------------------------------
+// transmissions after the first one (retransmissions, ACK for a non-2xx final)
+
+#[derive(Clone, Copy, Debug, PartialEq, Eq)]
+pub enum LaterKind {
+    /// the request itself, sent again
+    Retransmission,
+    /// the ACK the INVITE client transaction builds for a 3xx-6xx (same Request-URI as the INVITE)
+    Ack,
+    /// any other request carrying the transaction's Call-ID
+    OtherRequest,
+}
+
+impl LaterKind {
+    fn name(self) -> &'static str {
+        match self {
+            LaterKind::Retransmission => "retransmission",
+            LaterKind::Ack => "ack",
+            LaterKind::OtherRequest => "other-request",
+        }
+    }
+}
+
+#[derive(Clone, Debug)]
+pub struct Later {
+    pub kind: LaterKind,
+    pub carrier: Carrier,
+    /// what the carrying transport reports
+    pub secure: bool,
+    /// datagram carriers: is the transport bound to an IPv6 address
+    pub bound_v6: Option<bool>,
+    pub dest: SocketAddr,
+}
+
+/// Per-transmission clauses for what follows the first transmission of a request to `t`.
+pub fn judge_later(t: &Target, pin: Option<&Pin>, later: &[Later]) -> Vec<Finding> {
+    let mut out = vec![];
+    // sips target + insecure pin: the statement's clauses collide, verbatim use is accepted (see `judge`)
+    let unasserted_safety = matches!(pin, Some(p) if t.sips && !p.secure);
+    let dest = destination(t);
+    for l in later {
+        let kind = l.kind.name();
+        if t.sips && !l.secure && !unasserted_safety {
+            f(
+                &mut out,
+                format!("c14.safety/sips-{kind}-over-insecure-{}", path_name(&l.carrier)),
+                format!("{kind} of a request to a sips target sent over {:?} which does not report itself secure", l.carrier),
+            );
+        }
+        if l.carrier == Carrier::Unknown {
+            f(&mut out, format!("c14.observe/{kind}-unattributed"), format!("{kind} left over a transport the harness cannot attribute"));
+            continue;
+        }
+        match pin {
+            Some(p) => {
+                if l.carrier != p.carrier {
+                    f(
+                        &mut out,
+                        format!("c14.pin/{kind}-other-transport"),
+                        format!("pinned {:?} but the {kind} was sent over {:?}", p.carrier, l.carrier),
+                    );
+                }
+                if l.dest != p.dest {
+                    f(
+                        &mut out,
+                        format!("c14.pin/{kind}-other-destination"),
+                        format!("pinned destination {} but the {kind} was sent to {}", p.dest, l.dest),
+                    );
+                }
+            }
+            None => {
+                if l.dest != dest {
+                    let scheme = if t.sips { "sips" } else { "sip" };
+                    if l.dest.ip() != dest.ip() {
+                        f(&mut out, format!("c14.dest/{kind}-wrong-host"), format!("{kind} sent to {}, destination is {dest}", l.dest));
+                    } else {
+                        f(
+                            &mut out,
+                            format!("c14.port/{kind}-{scheme}-{}", if t.port.is_some() { "explicit" } else { "default" }),
+                            format!("{kind} sent to {}, the statement gives {dest}", l.dest),
+                        );
+                    }
+                }
+                if let Some(v6) = l.bound_v6 {
+                    if v6 != l.dest.is_ipv6() || v6 != dest.is_ipv6() {
+                        f(
+                            &mut out,
+                            format!("c14.family/{kind}-datagram-mismatch"),
+                            format!(
+                                "datagram transport bound to {} carried the {kind} to {}",
+                                if v6 { "IPv6" } else { "IPv4" },
+                                l.dest
+                            ),
+                        );
+                    }
+                }
+            }
+        }
+    }
+    out
 }
